@@ -69,6 +69,8 @@ def _gen_spec(rw, kind):
     spec = {"kind": kind, "fs": fs, "seed": seed}
     if seed < 2 ** 63 and rw.random() < 0.15:
         spec["seed_type"] = "np.int64"          # a seed NumPy accepts that is not a Python int
+    elif rw.random() < 0.08:
+        spec["seed_type"] = "SeedSequence"      # ... or a SeedSequence object, which same-seed instances of one scenario SHARE
     if kind == "white":
         spec["psd"] = rw.choice([1.0, 0.01, 100.0, round(rw.uniform(0.1, 10), 3)])
     else:
@@ -148,6 +150,9 @@ def generate(seed, tier):
         if spec.get("fmin") is not None and spec["fmin"] < spec["fs"] * 2e-5 and mode == "series" and rw.random() < 0.5:
             ops.append(["series", rw.choice([131072, 200000, 262144])])       # one long block on a long-memory band
         for _ in range(nops):
+            if rw.random() < 0.03:
+                # a request the generator refuses (negative / fractional / missing size): it fails, the stream goes on
+                ops.append(["bad", rw.choice([-1, -1, 2.5, None])])
             if mode == "series" or (mode == "mixed" and rw.random() < 0.5):
                 ops.append(["series", _gen_n(rw)])
             else:
@@ -213,12 +218,22 @@ def generate(seed, tier):
 # execution
 # --------------------------------------------------------------------------
 
+_SEEDSEQ = {}
+
+
 def _build(spec):
     from speckit import noise
 
     k = spec["kind"]
     if spec.get("seed_type") == "np.int64":
         spec = dict(spec, seed=np.int64(spec["seed"]))
+    elif spec.get("seed_type") == "SeedSequence":
+        # one object per seed value and scenario: twins, the one-shot reference and the generator itself are all built
+        # from the SAME caller-owned object, which the library must therefore not use up
+        ss = _SEEDSEQ.get(spec["seed"])
+        if ss is None:
+            ss = _SEEDSEQ[spec["seed"]] = np.random.SeedSequence(spec["seed"])
+        spec = dict(spec, seed=ss)
     if k == "white":
         return noise.white_noise(spec["fs"], psd=spec["psd"], seed=spec["seed"])
     if k == "red":
@@ -303,6 +318,9 @@ def _first_diff(a, b):
 def execute(sc, out):
     gens = sc["gens"]
     ng = len(gens)
+    _SEEDSEQ.clear()
+    if any(g.get("seed_type") == "SeedSequence" for g in gens):
+        out.count("seed_is_shared_SeedSequence_object")
     inst = [None] * ng
     taps = [None] * ng
     got = [[] for _ in range(ng)]     # list of (kind, n, array)
@@ -333,10 +351,23 @@ def execute(sc, out):
         kind, g, n = op
         if g >= ng or inst[g] is None or dead[g]:
             continue
-        if _nojit() and n > 20000:
+        if kind != "bad" and _nojit() and n > 20000:
             n = 20000 + (n % 7)          # interpreted kernels: keep the long requests affordable
         if kind == "fork_samples":
             _fork_samples(inst[g], gens[g], n, got[g], hist[g], out)
+            continue
+        if kind == "bad":
+            try:
+                r_ = inst[g].get_series(n)
+            except Exception:
+                out.count("refused_request_between_requests")
+                if hist[g]:
+                    out.nontrivial = True
+            else:
+                # a library that serves such a request defines its own meaning for it: this history says nothing then
+                out.count("odd_request_served")
+                if not (isinstance(r_, np.ndarray) and r_.size == 0):
+                    dead[g] = True
             continue
         if last_g is not None and last_g != g:
             out.count("instances_interleaved")
